@@ -417,6 +417,23 @@ func main() {
 		for k, v := range co.h.Stats {
 			dist["gen:"+k] += v
 		}
+		for _, t := range co.h.Tracks {
+			if t.Kind == kAV1 {
+				ids := map[int64]bool{t.Params0: true}
+				for _, a := range co.h.Ops {
+					if a.HasParams && co.h.Tracks[a.Track].Kind == kAV1 {
+						ids[a.Params] = true
+					}
+				}
+				for id := range ids {
+					if av1Gs[pg(id)].colorDesc {
+						dist["av1:sequence-header-with-colour-description"]++
+					} else {
+						dist["av1:sequence-header-without-colour-description"]++
+					}
+				}
+			}
+		}
 		if co.h.H264Reorder {
 			dist["h264:slice-headers-and-poc-type-0/"+variantName(co.h.Variant)]++
 		}
